@@ -9,9 +9,11 @@ import (
 	"maps"
 	"math/rand/v2"
 	"regexp"
+	"runtime"
 	"slices"
 	"strings"
 	"sync"
+	"sync/atomic"
 	"testing"
 	"testing/synctest"
 	"time"
@@ -69,11 +71,128 @@ func TestC15(t *testing.T) {
 				defer func() { <-sem }()
 
 				synctest.Test(t, func(*testing.T) { whitebox(c, rand.New(rand.NewPCG(uint64(c.Seed)+15, uint64(k))), k) })
+
+				if k%4 == 0 {
+					whiteboxConcurrent(c, rand.New(rand.NewPCG(uint64(c.Seed)+16, uint64(k))), k)
+				}
 			}()
 		}
 
 		wg.Wait()
 	})
+}
+
+// whiteboxConcurrent (real threads, no bubble): three readers keep listing a cached kind - plain, label-filtered, id-filtered - while the
+// cache is fed puts and removes; every list must be well-formed (no nil item, ids strictly increasing, i.e. sorted and without duplicates)
+// and the race detector watches the cache's shared slice meanwhile.
+func whiteboxConcurrent(c *vk.C, rng *rand.Rand, k int) {
+	const ns, typ = "n1", res.TypeA
+
+	cache := cosiruntime.VerifNewResourceCache([]options.CachedResource{{Namespace: ns, Type: typ}})
+	ctx, cancel := context.WithCancel(context.Background())
+
+	defer cancel()
+
+	mk := func(id string, seq int) resource.Resource {
+		r := res.New(ns, typ, id)
+		res.SpecOf(r).Token = fmt.Sprint("c", seq)
+		r.Metadata().Labels().Set("odd", fmt.Sprint(seq%2))
+
+		return r
+	}
+
+	ids := slices.Clone(wbIDs)
+	slices.Sort(ids)
+
+	for i, id := range ids[:len(ids)/2] {
+		cache.CacheAppend(mk(id, i))
+	}
+
+	cache.MarkBootstrapped(ns, typ)
+
+	var (
+		wg    sync.WaitGroup
+		stop  atomic.Bool
+		fault atomic.Pointer[string]
+		reads atomic.Int64
+	)
+
+	for rd := 0; rd < 3; rd++ {
+		wg.Add(1)
+
+		go func() {
+			defer wg.Done()
+
+			defer func() {
+				if r := recover(); r != nil {
+					msg := fmt.Sprintf("cached List panicked: %v", r)
+					fault.Store(&msg)
+				}
+			}()
+
+			opts := [][]state.ListOption{nil, {state.WithLabelQuery(resource.LabelEqual("odd", "1"))}, {state.WithIDQuery(resource.IDRegexpMatch(regexp.MustCompile("^[a-z0-9]")))}}[rd]
+
+			for !stop.Load() {
+				l, err := cache.List(ctx, resource.NewMetadata(ns, typ, "", resource.VersionUndefined), opts...)
+				if err != nil {
+					return
+				}
+
+				prev := ""
+
+				for i, it := range l.Items {
+					if it == nil {
+						msg := fmt.Sprintf("cached List returned a nil item at %d", i)
+						fault.Store(&msg)
+
+						return
+					}
+
+					if id := it.Metadata().ID(); i > 0 && id <= prev {
+						msg := fmt.Sprintf("cached List not strictly sorted / duplicate id: %q after %q (filter %d)", id, prev, rd)
+						fault.Store(&msg)
+
+						return
+					}
+
+					prev = it.Metadata().ID()
+				}
+
+				reads.Add(1)
+			}
+		}()
+	}
+
+	present := map[string]bool{}
+	for _, id := range ids[:len(ids)/2] {
+		present[id] = true
+	}
+
+	for step := 0; step < 400; step++ {
+		id := wbIDs[rng.IntN(len(wbIDs))]
+
+		if present[id] && rng.IntN(2) == 0 {
+			cache.CacheRemove(mk(id, step))
+			delete(present, id)
+		} else {
+			cache.CachePut(mk(id, step))
+			present[id] = true
+		}
+
+		if step%16 == 0 {
+			runtime.Gosched()
+		}
+	}
+
+	stop.Store(true)
+	wg.Wait()
+
+	c.Count("whitebox_concurrent_list_reads", int(reads.Load()))
+	c.Count("whitebox_concurrent_runs", 1)
+
+	if msg := fault.Load(); msg != nil {
+		c.Violation("cached-list-malformed-under-concurrent-update", map[string]any{"mode": "whitebox-concurrent", "k": k, "what": *msg})
+	}
 }
 
 var wbIDs = []string{"a", "aa", "ab", "b", "A", "a-", "a.", "a0", "é", "z", "zz", "0", "10", "9", "~"}
@@ -170,7 +289,7 @@ func whitebox(c *vk.C, rng *rand.Rand, k int) {
 
 	type tdw struct {
 		id     string
-		ctx    context.Context //nolint:containedctx
+		ctx    context.Context    //nolint:containedctx
 		cancel context.CancelFunc // of the caller's own parent context
 	}
 
